@@ -7363,7 +7363,8 @@ void SymbolDatabase::setValueType(Token* tok, const ValueType& valuetype, const 
                 return;
             }
 
-            if (vt1->isTypeEqual(vt2)) {
+            // isTypeEqual() does not compare the sign: 'c ? i : u' must go through the usual arithmetic conversions
+            if (vt1->isTypeEqual(vt2) && (!vt1->isIntegral() || vt1->pointer != 0U || vt1->sign == vt2->sign)) {
                 setValueType(parent, *vt1);
                 return;
             }
